@@ -343,6 +343,12 @@ func mainErr(args []string) error {
 // Note that it uses and modifies global state; in general, it should only be
 // called once from mainErr in the top-level garble process.
 func toolexecCmd(command string, args []string) (*exec.Cmd, error) {
+	// A top-level command creates its own shared directory further below.
+	// Forget any inherited GARBLE_SHARED, such as when a test under "garble test"
+	// runs garble itself, so that our deferred cleanups never remove another
+	// process's directory if we fail before creating ours.
+	os.Unsetenv("GARBLE_SHARED")
+
 	// Split the flags from the package arguments, since we'll need
 	// to run 'go list' on the same set of packages.
 	flags, args := splitFlagsFromArgs(args)
